@@ -1169,4 +1169,38 @@ theorem step_ne {c : Case} {st st' : St} {me : Nat} {ins : Instr} {rest : List I
         simp only [hr, Option.map_some, Option.some.injEq, Prod.mk.injEq] at hm
         exact (hins hm.1.symm).2.2 k hi
 
+/-- does the session task of this peer ever end a session with GR retention? -/
+def peerRetains (c : Case) (p : Nat) : Bool :=
+  match c.threads[p]? with
+  | some (_, ops) => ops.any fun o => o == .gdown
+  | none => false
+
+/-- a peer whose session task never ends a session with GR retention has no stale mark -/
+def NG (c : Case) (st : St) : Prop :=
+  ∀ p, peerRetains c p = false →
+    (∀ ins ∈ (st.threads p).pgm, ∀ k, ins ≠ .commitStale k) ∧ (∀ g, (p, g) ∉ st.staleGens)
+
+theorem step_ng {c : Case} {st st' : St} {me : Nat} {ins : Instr} {rest : List Instr} (h : NG c st)
+    (hp : (st.threads me).pgm = ins :: rest) (hs : step me st = some st') : NG c st' := by
+  obtain ⟨-, h2, h3⟩ := step_frame hp hs
+  intro p hpe
+  obtain ⟨a, d⟩ := h p hpe
+  refine ⟨?_, ?_⟩
+  · intro i hi
+    by_cases hpm : p = me
+    · subst hpm; rw [h2] at hi; exact a i (by rw [hp]; exact List.mem_cons_of_mem _ hi)
+    · rw [h3 p hpm] at hi; exact a i hi
+  · intro g hm
+    rcases (step_ph hp hs).2.2.2 _ hm with hm | ⟨k, hi, hm⟩
+    · exact d g hm
+    · simp only [gensIn, List.mem_filterMap] at hm
+      obtain ⟨key, _, hm⟩ := hm
+      cases hr : st.rib key with
+      | none => simp [hr] at hm
+      | some e =>
+        simp only [hr, Option.map_some, Option.some.injEq, Prod.mk.injEq] at hm
+        have hpm : p = me := hm.1.symm
+        subst hpm
+        exact a ins (by rw [hp]; exact List.mem_cons_self) k hi
+
 end Rbgp.Monitor
